@@ -367,6 +367,8 @@ def fresh(ty, name, idx=(), facts=None):
             return f(*idx)
         if ty == "none":
             return None
+        if ty == "fn":
+            return Opaque("fn", uf=z3.Function(uid(name), R, R))
         if ty == "any":
             raise EngineError("cannot create a fresh value of unknown element type (%s)" % name)
         raise EngineError("unknown type %r" % (ty,))
